@@ -761,9 +761,11 @@ func c03Pack(c *ctx, dir string) {
 			}
 			sort.Ints(ids)
 			b := d.blobs[ids[c.rng.Intn(len(ids))]-1]
-			var atCommit []byte
+			var atCommit, atPunch []byte
 			kv.onCommit = func() { atCommit, _ = os.ReadFile(packFile) }
+			restorePunch := diskpacked.VerifOnPunch(func(string) { atPunch, _ = os.ReadFile(packFile) })
 			must(s.RemoveBlobs(context.Background(), []blob.Ref{b.ref}))
+			restorePunch()
 			kv.onCommit = nil
 			closeStorage(s)
 			pack1, _ := os.ReadFile(packFile)
@@ -790,7 +792,21 @@ func c03Pack(c *ctx, dir string) {
 			}
 			var chain []st
 			chain = append(chain, st{pack0, "RmNone", "pack untouched"})
-			if len(diff) > 0 {
+			// was the header already rewritten when the destruction of the data began?
+			headerFirst := len(b.content) == 0 || atPunch == nil || !bytes.Equal(atPunch, pack0)
+			c.count("removal: header vs data", map[bool]string{true: "header rewritten first", false: "data destroyed first"}[headerFirst])
+			if len(diff) > 0 && !headerFirst {
+				// data first: body zeroed under an intact header, then the header
+				p := append([]byte{}, pack0...)
+				body := diff[hdrEnd:]
+				for z := 1; z <= len(body); z++ {
+					p[body[z-1]] = pack1[body[z-1]]
+					if z == len(body) || z == 1 || z == len(body)/2 {
+						chain = append(chain, st{append([]byte{}, p...), fmt.Sprintf("(RmZeroOnly %d%%nat)", z), fmt.Sprintf("header intact, body partly zeroed (%d bytes)", z)})
+					}
+				}
+				chain = append(chain, st{pack1, "RmDone", "header rewritten, body zeroed"})
+			} else if len(diff) > 0 {
 				p := append([]byte{}, pack0...)
 				for _, i := range diff[:hdrEnd] {
 					p[i] = pack1[i]
@@ -823,6 +839,10 @@ func c03Pack(c *ctx, dir string) {
 					if indexFirst && rowGone && ci == len(chain)-1 && len(chain) > 1 {
 						stage = "RmDone"
 					}
+					if strings.Contains(stage, "RmZeroOnly") && !rowGone {
+						// data-first and index-last: the row is still there over a zeroed body
+						stage = strings.Replace(stage, "RmZeroOnly", "RmZeroOnly", 1)
+					}
 					ops := append([]string{}, d.ops...)
 					if !(stage == "RmNone") {
 						ops = append(ops, fmt.Sprintf("DCrashRemove %d %s", b.id, stage))
@@ -853,7 +873,7 @@ func c03Pack(c *ctx, dir string) {
 func runC03(c *ctx) {
 	c.rep.Rule = "files: histories of 3-8 receives (empty, short, 2 KB in several writes, repeated) and removals over a recording VFS; for the last operation (thorough: every operation) every prefix of its VFS calls x {unsynced data lost, kept, half kept} is materialised in a fresh directory and a new store opened on it; " +
 		"diskpacked: histories of 2-6 receives/removals (empty blob, a body that is a lone ']', repeats), then an operation cut by a crash: for a receive every sampled prefix of the appended bytes (always: 0, 1, around the end of the header, last byte) x index row written or not, optionally followed by a restart and more receives behind the torn bytes; " +
-		"for a removal the chain untouched / header rewritten / body zeroed (1 byte, half, all) x index row deleted or not, restricted to the states reachable in the order the code is seen to use (the pack is looked at when the index batch is committed); each state: reopen, fetch every blob, enumerate, then Reindex from the pack alone and fetch again; non-trivial = distinct state strictly inside an operation"
+		"for a removal the chain untouched / header rewritten / body zeroed (1 byte, half, all) x index row deleted or not, restricted to the states reachable in the orders the code is seen to use (the pack is looked at when the index batch is committed and when the destruction of the data begins); each state: reopen, fetch every blob, enumerate, then Reindex from the pack alone and fetch again; non-trivial = distinct state strictly inside an operation"
 	dir, err := os.MkdirTemp("", "verif-c03-")
 	must(err)
 	defer os.RemoveAll(dir)
